@@ -187,7 +187,10 @@ ESC_UPPER = [("http://a.com/?%42=1&a=2", "http://a.com/?B=1&a=2"), ("http://a.co
              ("http://a.fr/x/%69ndex.html", "http://a.fr/x/index.html"), ("http://a.fr/x/%49ndex.html", "http://a.fr/x/Index.html"), ("http://a.fr/x/b.%61mp", "http://a.fr/x/b.amp"),
              ("http://a.fr/x/b.%41MP.html?%55TM_source=1", "http://a.fr/x/b.AMP.html?UTM_source=1"), ("a.fr?u=/p", "https://a.fr/?u=/p"), ("a.fr/login?next=/home&x=1", "https://a.fr/login?next=/home&x=1"),
              ("cdn.ampproject.org:443/c/s/y.com/a", "https://cdn.ampproject.org/c/s/y.com/a"), ("x.com/?a=1&%61mp;x=1", "x.com/?a=1&amp;x=1"), ("x.com/?Q=http://y.com/a", "x.com/?q=http://y.com/a"),
-             ("x.com/?Q=http://y.com/a", "y.com/a"), ("http://www.google.com/URL?Q=http%3A%2F%2Fy.com%2Fa", "http://www.google.com/url?q=http%3A%2F%2Fy.com%2Fa")]
+             ("x.com/?Q=http://y.com/a", "y.com/a"), ("http://www.google.com/URL?Q=http%3A%2F%2Fy.com%2Fa", "http://www.google.com/url?q=http%3A%2F%2Fy.com%2Fa"),
+             # an upper-case letter written as an escape INSIDE the escaped target of a redirect carrier (lower() of the carrier cannot reach it)
+             ("http://w.com/r?url=http%3A%2F%2Fx.com%2Fp%3F%51%3DA", "http://x.com/p?Q=A"), ("http://l.example.com/l.php?u=https%3A%2F%2Fx.com%2Fp%3F%42%3D1%26a%3D2", "https://x.com/p?B=1&a=2"),
+             ("http://w.com/r?next=%2F%50ath%2F%49ndex.html", "http://w.com/Path/Index.html"), ("http://w.com/r?url=http%3A%2F%2FX.com%2F%41%23%46rag", "http://x.com/A#Frag")]
 ESC_TRACKING = [("http://a.com/x?%75tm_source=1&id=2", "http://a.com/x?id=2"), ("http://a.com/x?utm%5Fsource=1", "http://a.com/x"), ("http://a.com/x?%66bclid=abc&a=1", "http://a.com/x?a=1"),
                 ("http://a.com/x?re%66=twitter", "http://a.com/x?ref=%74witter")]
 
